@@ -422,6 +422,11 @@ def parse_mir(text):
         line_end = text.index("\n", start)
         head = text[start:line_end]
         if not head.rstrip().endswith("{"):
+            mm1 = re.match(r"const (.*?): (.*?) = (const .*);$", head.strip())
+            if mm1:
+                f1 = Fn(mm1.group(1), [], mm1.group(2), mm1.group(3))
+                f1.is_const = True
+                fns[mm1.group(1)] = f1
             pos = line_end
             continue
         end = text.find("\n}\n", start)
